@@ -41,6 +41,7 @@ type vCorsCfg struct {
 	domains  []string
 	hasFunc  bool
 	funcAcc  string // the predicate accepts exactly this string
+	funcAccP *string // when set: the predicate reads the accepted string from here (it may change between requests)
 	cookies  bool
 	methods  []string // configured AllowedMethods (nil: computed from the container)
 	headers  []string // configured AllowedHeaders
@@ -55,7 +56,13 @@ func (k vCorsCfg) filter(c *Container) CrossOriginResourceSharing {
 	}
 	if k.hasFunc {
 		acc := k.funcAcc
-		cors.AllowedDomainFunc = func(o string) bool { return o == acc }
+		accP := k.funcAccP
+		cors.AllowedDomainFunc = func(o string) bool {
+			if accP != nil {
+				return o == *accP
+			}
+			return o == acc
+		}
 	}
 	return cors
 }
@@ -114,14 +121,26 @@ func H_C08(cfg int) {
 		capN = 11
 	}
 	k := vCorsCfg{domains: vCorsDomains(cfg%3, capN), hasFunc: (cfg/3)%2 == 1, cookies: nondetBool("cookies"), expose: []string{"X-E"}, maxAge: 5}
+	origin := nondetString("origin", capN)
+	accNow := ""
 	if k.hasFunc {
 		k.funcAcc = nondetString("funcacc", capN)
+		accNow = k.funcAcc
+		k.funcAccP = &accNow
 	}
 	h := vNewH(vCorsTable)
 	c := vCorsContainer(h, k, true)
 	ht := vNewH(vCorsTable)
 	twin := vCorsContainer(ht, k, false)
-	origin := nondetString("origin", capN)
+	if k.hasFunc && nondetBool("earlier-accepted") {
+		// an earlier request from the same origin, at a time when the predicate accepted it: what the predicate
+		// said then must not be remembered
+		accNow = strings.ToLower(origin)
+		h.dispatch(c, vNewRec(), vHdrReq("GET", "/t/a", map[string]string{"Origin": origin}))
+		accNow = k.funcAcc
+		h.invoked, h.events = nil, nil
+		verifCover("predicate-changed-its-mind")
+	}
 	method := nondetString("method", 7)
 	acrm := nondetString("acrm", 4)
 	hdr := map[string]string{"Origin": origin, HEADER_AccessControlRequestMethod: acrm}
@@ -247,9 +266,13 @@ func H_C09(cfg int) {
 		if granted {
 			verifCover("preflight-granted")
 			verifAssert(vAnd(mOK, hOK), "C09: preflight granted although the requested method or a requested header is not allowed")
-			verifAssert(len(rec.out()[HEADER_AccessControlAllowMethods]) == 1 && len(rec.out()[HEADER_AccessControlAllowHeaders]) <= 1 && len(rec.out()[HEADER_AccessControlAllowOrigin]) == 1,
-				"C09: a granted preflight lacks Allow-Methods/Allow-Origin or repeats a header")
-			verifAssert(vHdr1(rec, HEADER_AccessControlAllowMethods) == strings.Join(allowedM, ","), "C09: Access-Control-Allow-Methods is not the allowed method list")
+			// Allow-Methods and Allow-Headers are list-valued and may be sent on several lines; Allow-Origin is one value
+			verifAssert(len(rec.out()[HEADER_AccessControlAllowMethods]) >= 1 && len(rec.out()[HEADER_AccessControlAllowOrigin]) == 1,
+				"C09: a granted preflight lacks Allow-Methods/Allow-Origin or repeats Allow-Origin")
+			verifAssert(strings.Join(rec.out()[HEADER_AccessControlAllowMethods], ",") == strings.Join(allowedM, ","), "C09: Access-Control-Allow-Methods is not the allowed method list")
+			for _, line := range rec.out()[HEADER_AccessControlAllowHeaders] {
+				verifAssert(refHeadersAllowed(k.headers, line, items+1), "C09: Access-Control-Allow-Headers names a header that is not allowed")
+			}
 		} else {
 			verifCover("preflight-refused")
 			verifAssert(!vAnd(mOK, hOK), "C09: an allowed preflight received no CORS grant")
